@@ -171,6 +171,18 @@ func (g *c14Gen) ret(shape string) string {
 		}
 		return fallback
 	}
+	// interface-typed locals swapped or rotated by one tuple assignment before one of them is returned
+	if (shape == "err" || shape == "anyerr") && rapid.IntRange(0, 13).Draw(g.t, "swap") == 0 {
+		g.feats["tuple-swap-of-interface-locals"] = true
+		typ, vals, tail := "error", []string{"E{Code: 1}", "nil", "Impl{}.Err()"}, ""
+		if shape == "anyerr" {
+			typ, vals, tail = "any", []string{"1", "\"s\"", "T{}"}, ", nil"
+		}
+		if rapid.Bool().Draw(g.t, "rotate3") {
+			return "{\nvar sw1, sw2, sw3 " + typ + " = " + strings.Join(vals, ", ") + "\nsw1, sw2, sw3 = sw2, sw3, sw1\n_ = sw3\nreturn " + rapid.SampledFrom([]string{"sw1", "sw2"}).Draw(g.t, "swret") + tail + "\n}"
+		}
+		return "{\nvar sw1, sw2 " + typ + " = " + strings.Join(vals[:2], ", ") + "\nsw1, sw2 = sw2, sw1\nreturn " + rapid.SampledFrom([]string{"sw1", "sw2"}).Draw(g.t, "swret") + tail + "\n}"
+	}
 	switch shape {
 	case "int":
 		switch pick {
@@ -391,6 +403,7 @@ type c14LitOp struct {
 
 var c14LitOps = []c14LitOp{
 	{"1", c14Exp{"int", "1"}, "int"}, {"-2", c14Exp{"int", "-2"}, "int"}, {"1 + 2*3", c14Exp{"int", "7"}, "int"}, {"(3)", c14Exp{"int", "3"}, "int"},
+	{"- -1", c14Exp{"int", "1"}, "int"}, {"-(-2)", c14Exp{"int", "2"}, "int"}, {"+ +3", c14Exp{"int", "3"}, "int"}, {"- +4", c14Exp{"int", "-4"}, "int"}, {"^ ^5", c14Exp{"int", "5"}, "int"},
 	{"1 << 4", c14Exp{"int", "16"}, "int"}, {"'x'", c14Exp{"int", "120"}, "int"}, {"10 % 4", c14Exp{"int", "2"}, "int"}, {"^0", c14Exp{"int", "-1"}, "int"},
 	{"2.5 * 2", c14Exp{"float", "5.0"}, "float"}, {"1.0 / 4", c14Exp{"float", "0.25"}, "float"}, {"-(0.5)", c14Exp{"float", "-0.5"}, "float"},
 	{`"a" + "b"`, c14Exp{"string", "ab"}, "string"}, {`""`, c14Exp{"string", ""}, "string"}, {"`raw`", c14Exp{"string", "raw"}, "string"},
